@@ -1050,6 +1050,7 @@ func forcedLost(args []string) int {
 		res.Why = "hook req.afterSend never reached"
 	}
 	lost := 0
+	dropped := 0
 	allArrived := len(atts) > 0
 	for _, a := range atts {
 		id := a["id"].(string)
@@ -1068,6 +1069,11 @@ func forcedLost(args []string) int {
 		if !a["lookup_found_entry"].(bool) && a["lookup_finished_while_held"].(bool) && fired {
 			lost++
 		}
+		if a["lookup_found_entry"].(bool) && fired {
+			// the response arrived in time, its pending entry WAS found - and the attempt still ran into its timeout:
+			// the hand-over to the waiting requester dropped it
+			dropped++
+		}
 	}
 	res.Established = allArrived
 	if !allArrived && res.Why == "" {
@@ -1080,6 +1086,10 @@ func forcedLost(args []string) int {
 	if res.Established && lost > 0 {
 		res.Violation = "lost-reply:response-before-registration"
 		res.What = fmt.Sprintf("forced schedule on the real code: %d of %d attempts had their response arrive (handler latency 0) and be dropped as 'unknown request ID' before the requester registered resCh[id]; each of these attempts then waited the full %d ms and timed out; RequestFrom returned %q after %d ms", lost, len(atts), tms, r.Res+errSuffix(r.Err), r.DurUs/1000)
+	}
+	if res.Established && res.Violation == "" && dropped > 0 {
+		res.Violation = "lost-reply:response-dropped-while-pending"
+		res.What = fmt.Sprintf("forced schedule on the real code: %d of %d attempts had their response arrive in time (handler latency 0) and find the pending entry while the requester was between sending and waiting, and nevertheless timed out after the full %d ms: the hand-over dropped the reply; RequestFrom returned %q after %d ms", dropped, len(atts), tms, r.Res+errSuffix(r.Err), r.DurUs/1000)
 	}
 	sent, reg := -1, -1
 	for _, e := range evs {
